@@ -4,11 +4,11 @@ RUNS = {
     "c03": (2400, 100000),
     "c04": (4000, 200000),
     "c11": (1600, 60000),
-    "c12": (2400, 100000),
-    "c13": (3000, 150000),
+    "c12": (3000, 150000),
+    "c13": (4000, 200000),
     "c14": (2000, 100000),
     "c17": (6000, 400000),
-    "c18": (2000, 60000),
+    "c18": (1600, 60000),
 }
 # wall-clock safety net for dispatch (seconds); when hit, fewer runs are made and reported honestly
 BUDGET_S = {"quick": 240, "thorough": 3300}
